@@ -290,3 +290,8 @@ mod tests {
         assert_eq!(result.leap_indicator, None);
     }
 }
+
+// verification hook (guard: cfg(kani)); contract harnesses live outside the repository
+#[cfg(kani)]
+#[path = "/verif/kani/ntp_proto/algorithm/kalman/combiner.rs"]
+mod verif;
